@@ -8,6 +8,7 @@ mod c10;
 mod c11;
 mod c12;
 mod c13;
+mod c14;
 mod c16;
 mod codes;
 mod common;
@@ -63,6 +64,7 @@ fn main() {
                     o.absorb(c16::run(&ctx, "C02"));
                     o
                 }
+                "C14" => c14::run(&ctx),
                 "C16" => {
                     let mut o = c16::run(&ctx, "C16");
                     o.set("rule", serde_json::json!("X2 on T2: breadth-first search (iterative deepening, canonical-digest de-duplication) over the real client sending on two streams against a scripted peer; events: reserve_capacity / send_data / end / reset / drop / poll_capacity per stream, peer WINDOW_UPDATE (connection, stream), SETTINGS INITIAL_WINDOW_SIZE up and down, RST_STREAM, connection polls with open / budgeted / blocked writes. In every state capacity(s) <= wire credit of s minus queued, sum of capacities <= connection credit, poll_capacity never Ok(0); from every new state the epilogue checks that the largest capacity is usable without a further grant, that free connection capacity has reached streams asking for more, and that no capacity waiter was left unwoken"));
@@ -99,6 +101,8 @@ fn main() {
                 c11::replay(&v)
             } else if h.starts_with("x2.client-limit") || h.starts_with("x2.server-limit") {
                 c05::replay(&v).unwrap_or(false)
+            } else if h.starts_with("x2.acks") {
+                c14::replay(&v).unwrap_or(false)
             } else if h.starts_with("x2.receiver") {
                 c03::replay(&v).unwrap_or(false)
             } else if h.starts_with("x2.sender") {
